@@ -404,6 +404,9 @@ func main() {
 		time.Sleep(50 * time.Millisecond)
 	}
 	w := &world{s: s, am: am, dcs: []string{"dc-1", "dc-2"}, bits: am.GetSuffixBits(), lastG: started.Add(-30 * time.Second)}
+	if *replay == "" {
+		w.sameMillisecondWriteProbe(R)
+	}
 	// the first estimate of a run may be far from the last update of the Global memory: warm up
 	am.HandleTSORequest(tso.GlobalDCLocation, 1)
 	w.lastG = time.Now()
@@ -485,6 +488,7 @@ func main() {
 			emit(w.runCase(master.Fork(uint64(k)), nil, 25))
 		}
 		w.stress(R, time.Duration(*stressMs)*time.Millisecond)
+		w.failedWriteProbe(R)
 		w.farResetProbe(R)
 		w.suffixRaceProbe(R)
 		w.leaderless(R)
